@@ -409,6 +409,7 @@ package spec
 //@ func normalizeBase
 //@   property C11
 //@   assigns  nothing
+//@   defines  result == normBase(in)
 //@   ensures  canonical @@ cwdAvailable() ==> canonicalURL(result)
 //@   ensures  file-no-query @@ cwdAvailable() && (!urlOK(in) || urlScheme(in) == "" || (urlScheme(in) == "file" && !hasPrefix(pathClean(urlPath(in)), "/"))) ==> urlScheme(result) == "file" && urlQuery(result) == ""
 //@   ensures  keeps-scheme @@ urlOK(in) && urlScheme(in) != "" && urlScheme(in) != "file" ==> urlScheme(result) == urlScheme(in) && urlHost(result) == urlHost(in) && urlQuery(result) == urlQuery(in)
@@ -470,6 +471,7 @@ package spec
 //@   property C12
 //@   requires urlOK(base)
 //@   assigns  nothing
+//@   defines  result == normURI(refPath, base)
 //@   ensures  absolute-kept @@ urlOK(refPath) && refIsAbsolute(refPath) ==> result == urlStr(urlScheme(refPath), urlHost(refPath), refPathOf(refPath), urlQuery(refPath), urlFrag(refPath))
 //@   ensures  relative-joined @@ urlOK(refPath) && !refIsAbsolute(refPath) ==> result == urlStr(urlScheme(base), urlHost(base),
 //@               (hasPrefix(refPathOf(refPath), "/") ? refPathOf(refPath) : (refPathOf(refPath) == "" ? urlPath(base) : pathJoin2(pathDir(urlPath(base)), refPathOf(refPath)))),
@@ -523,3 +525,91 @@ package spec
 //@   requires urlQuery(c) == "" && !hasSuffix(urlPath(c), "/") && !hasSuffix(urlPath(rootBase), "/")
 //@   ensures  d1 @@ urlScheme(c) != urlScheme(rootBase) ==> result == c
 //@   ensures  d2 @@ urlScheme(c) == urlScheme(rootBase) && urlHost(c) == urlHost(rootBase) && urlPath(c) == urlPath(rootBase) ==> result == urlStr("", "", "", "", urlFrag(c))
+
+// ===========================================================================
+// Expander family (expander.go, schema_loader.go): C02 C03 C04 C05 C08 C09 C10 C11 C18
+// ===========================================================================
+
+// ghost state of one run
+//   failures : number of $ref resolutions that failed so far (defined by resolveRef's outcome)
+//   cacheDom / cacheDoc : abstract view of the resolution cache used by the run (all loaders of a run share it)
+//@ ghost failures int
+//@ ghost cacheDom smt:(Array String Bool)
+//@ ghost cacheDoc smt:(Array String Iface)
+
+// spec functions naming the results of the two normalisers (they are functions of their arguments)
+//@ specfn normBase(string) string
+//@ specfn normURI(string, string) string
+// what the loader serves: docOK(u) - loading and parsing u succeeds; docOf(u) - the parsed document
+//@ specfn docOK(string) bool
+//@ specfn docOf(string) interface{}
+
+//@ define wfResolver(r *schemaLoader) bool = r != nil && r.options != nil && r.context != nil && r.cache != nil
+//@    && r.context.circulars != nil && r.context.loadDoc != nil
+//@ define refString(r *Ref) string = r.referenceURL == nil ? "" : urlStr(r.referenceURL.Scheme, r.referenceURL.Host, r.referenceURL.Path, r.referenceURL.RawQuery, r.referenceURL.Fragment)
+//@ define containsStr(c []string, x string) bool = exists i int :: 0 <= i && i < len(c) && c[i] == x
+
+//@ ext github.com/go-openapi/swag.ContainsStrings
+//@   params coll, item
+//@   pure
+//@   ensures result == containsStr(coll, item)
+
+//@ iface ResolutionCache.Get
+//@   params cache, uri
+//@   pure
+//@   ensures result1 == cacheDom[uri]
+//@   ensures result1 ==> result0 == cacheDoc[uri]
+
+//@ iface ResolutionCache.Set
+//@   params cache, uri, data
+//@   assigns ghost(cacheDom, cacheDoc)
+//@   ensures cacheDom == upd(old(cacheDom), uri, true) && cacheDoc == upd(old(cacheDoc), uri, data)
+
+// the document loader of the run: a function of the URL during one run
+//@ iface field:loadDoc
+//@   params f, pth
+//@   pure
+//@   ensures (result1 == nil) == loaderOK(pth)
+//@   ensures result1 == nil ==> result0 == loaderBytes(pth)
+//@ specfn loaderOK(string) bool
+//@ specfn loaderBytes(string) []byte
+
+//@ func (*schemaLoader).shouldStopOnError
+//@   property C08
+//@   requires r != nil && r.options != nil
+//@   assigns  nothing
+//@   ensures  result == (err != nil && !r.options.ContinueOnError)
+
+//@ func (*schemaLoader).isCircular
+//@   property C03, C04
+//@   requires wfResolver(r) && ref != nil && urlOK(basePath)
+//@   assigns  map(r.context.circulars)
+//@   ensures  exact @@ foundCycle == (old(has(r.context.circulars, normURI(refString(ref), basePath))) || containsStr(parentRefs, normURI(refString(ref), basePath)))
+//@   ensures  memoised @@ foundCycle ==> has(r.context.circulars, normURI(refString(ref), basePath))
+//@   ensures  memo-monotone @@ forall k string :: old(has(r.context.circulars, k)) ==> has(r.context.circulars, k)
+//@   ensures  memo-justified @@ forall k string :: has(r.context.circulars, k) && !old(has(r.context.circulars, k)) ==> k == normURI(refString(ref), basePath) && containsStr(parentRefs, k)
+
+//@ ext encoding/json.Unmarshal
+//@   params data, v
+//@   assigns region(payload(v))
+//@   ensures (result == nil) == jsonOK(data)
+//@   ensures result == nil && holds(v, "*interface{}") ==> *asPtr(v, "*interface{}") == jsonValue(data)
+//@ specfn jsonOK([]byte) bool
+//@ specfn jsonValue([]byte) interface{}
+
+// the URL load() fetches: the reference without fragment, normalised as a base
+//@ define loadKey(u *url.URL) string = normBase(urlStr(u.Scheme, u.Host, u.Path, u.RawQuery, ""))
+//@ axiom forall u string :: docOK(u) == (loaderOK(u) && jsonOK(loaderBytes(u)))
+//@ axiom forall u string :: docOK(u) ==> docOf(u) == jsonValue(loaderBytes(u))
+
+//@ func (*schemaLoader).load
+//@   property C18, C11, C05
+//@   requires wfResolver(r) && refURL != nil
+//@   assigns  ghost(cacheDom, cacheDoc, calls)
+//@   ensures  [C18] lookup-first @@ old(cacheDom[loadKey(refURL)]) ==> result3 == nil && result2 && result0 == old(cacheDoc[loadKey(refURL)])
+//@   ensures  [C18] never-requested-if-present @@ forall u string :: calls(r.context.loadDoc, u) == old(calls(r.context.loadDoc, u)) + (u == loadKey(refURL) && !old(cacheDom[loadKey(refURL)]) ? 1 : 0)
+//@   ensures  [C18] stored @@ !old(cacheDom[loadKey(refURL)]) && docOK(loadKey(refURL)) ==> result3 == nil && result0 == docOf(loadKey(refURL)) && cacheDom[loadKey(refURL)] && cacheDoc[loadKey(refURL)] == docOf(loadKey(refURL))
+//@   ensures  [C18] failed-not-stored @@ !old(cacheDom[loadKey(refURL)]) && !docOK(loadKey(refURL)) ==> result3 != nil && cacheDom == old(cacheDom) && cacheDoc == old(cacheDoc)
+//@   ensures  [C18] cache-monotone @@ forall u string :: old(cacheDom[u]) ==> cacheDom[u] && cacheDoc[u] == old(cacheDoc[u])
+//@   ensures  [C11] loader-key-canonical @@ forall u string :: calls(r.context.loadDoc, u) > old(calls(r.context.loadDoc, u)) && cwdAvailable() ==> canonicalURL(u)
+//@   ensures  [C05] error-iff-missing @@ (result3 != nil) == (!old(cacheDom[loadKey(refURL)]) && !docOK(loadKey(refURL)))
